@@ -430,6 +430,155 @@ func (P *Program) runStructural(spec string) []StructObl {
 			return fail("no receive from %s found (renamed?)", fs[1])
 		}
 		return ok(fmt.Sprintf("%d receive site(s), all in %s", found, fs[2]))
+	case "goroutines-only-via":
+		// goroutines-only-via <callee=fn,fn;callee=fn,...>: library code contains no `go` statement, and the functions
+		// that start a goroutine (the supervisor, the timer) are called only from the listed functions.  The proofs of
+		// C13-C16 rest on who runs where: the worker owns the state, the loops end with their context, nothing else
+		// runs.  A goroutine started anywhere else is outside every contract.
+		allowedBy := map[string]map[string]bool{}
+		for _, part := range strings.Split(fs[1], ";") {
+			kv := strings.SplitN(part, "=", 2)
+			if len(kv) != 2 {
+				return fail("bad argument %q", part)
+			}
+			allowedBy[kv[0]] = map[string]bool{}
+			for _, f := range strings.Split(kv[1], ",") {
+				allowedBy[kv[0]][f] = true
+			}
+		}
+		found := 0
+		for _, fn := range P.allRepoFuncs() {
+			if !P.isLibrary(fn) {
+				continue
+			}
+			for _, b := range fn.Blocks {
+				for _, ins := range b.Instrs {
+					if g, isGo := ins.(*ssa.Go); isGo {
+						return fail("%s starts a goroutine with a go statement at %s", P.fnKey(fn), P.fset.Position(g.Pos()))
+					}
+					c, isCall := ins.(ssa.CallInstruction)
+					if !isCall {
+						continue
+					}
+					callee := c.Common().StaticCallee()
+					if callee == nil || callee.Pkg == nil {
+						continue
+					}
+					name := callee.Pkg.Pkg.Name() + "." + callee.Name()
+					al, watched := allowedBy[name]
+					if !watched {
+						continue
+					}
+					found++
+					ok2 := false
+					for g := fn; g != nil; g = g.Parent() {
+						if al[P.fnKey(g)] {
+							ok2 = true
+						}
+					}
+					if !ok2 {
+						return fail("%s calls %s at %s; only %s may start that kind of goroutine", P.fnKey(fn), name, P.fset.Position(ins.Pos()), fs[1])
+					}
+				}
+			}
+		}
+		if found == 0 {
+			return fail("none of the goroutine-starting calls was found (renamed?)")
+		}
+		return ok(fmt.Sprintf("no go statement; %d supervised / timer start site(s), all where listed", found))
+	case "no-nested-lock":
+		// no-nested-lock: a library function that holds a mutex kept in field M of struct type T does not call (directly
+		// or through static callees, three levels deep) a function that locks field M of a T again - sync mutexes are
+		// not reentrant, the second Lock never returns.
+		type lk struct{ typ, field string }
+		lockOf := func(c *ssa.CallCommon) (lk, bool, bool) {
+			callee := c.StaticCallee()
+			if callee == nil || len(c.Args) == 0 || callee.Pkg == nil || callee.Pkg.Pkg.Path() != "sync" {
+				return lk{}, false, false
+			}
+			acq := callee.Name() == "Lock" || callee.Name() == "RLock"
+			rel := callee.Name() == "Unlock" || callee.Name() == "RUnlock"
+			if !acq && !rel {
+				return lk{}, false, false
+			}
+			v := c.Args[0]
+			if fa, ok := v.(*ssa.FieldAddr); ok {
+				if st, named := structOfPtrType(fa.X.Type()); st != nil {
+					return lk{P.sorts.typeName(named), st.Field(fa.Field).Name()}, acq, rel
+				}
+			}
+			return lk{}, false, false
+		}
+		acquires := map[*ssa.Function]map[lk]bool{}
+		var acqOf func(fn *ssa.Function, depth int) map[lk]bool
+		acqOf = func(fn *ssa.Function, depth int) map[lk]bool {
+			if m, ok := acquires[fn]; ok {
+				return m
+			}
+			m := map[lk]bool{}
+			acquires[fn] = m
+			if fn.Blocks == nil || depth > 3 {
+				return m
+			}
+			for _, b := range fn.Blocks {
+				for _, ins := range b.Instrs {
+					if c, ok := ins.(ssa.CallInstruction); ok {
+						if k, acq, _ := lockOf(c.Common()); acq {
+							m[k] = true
+						} else if cal := c.Common().StaticCallee(); cal != nil && P.isLibrary(cal) {
+							for k := range acqOf(cal, depth+1) {
+								m[k] = true
+							}
+						}
+					}
+				}
+			}
+			return m
+		}
+		checked := 0
+		for _, fn := range P.allRepoFuncs() {
+			if !P.isLibrary(fn) {
+				continue
+			}
+			for _, b := range fn.Blocks {
+				held := map[lk]bool{}
+				// within a block, in order; a lock taken in the entry block with a deferred unlock is held to the end
+				for _, ins := range b.Instrs {
+					c, ok := ins.(ssa.CallInstruction)
+					if !ok {
+						continue
+					}
+					if _, isDefer := ins.(*ssa.Defer); isDefer {
+						continue
+					}
+					if k, acq, rel := lockOf(c.Common()); acq {
+						if held[k] {
+							return fail("%s locks %s.%s twice in a row at %s", P.fnKey(fn), k.typ, k.field, P.fset.Position(ins.Pos()))
+						}
+						held[k] = true
+						checked++
+						continue
+					} else if rel {
+						delete(held, k)
+						continue
+					}
+					if len(held) == 0 {
+						continue
+					}
+					if cal := c.Common().StaticCallee(); cal != nil && P.isLibrary(cal) {
+						for k := range acqOf(cal, 0) {
+							if held[k] {
+								return fail("%s calls %s at %s while holding %s.%s, which %s locks again", P.fnKey(fn), P.fnKey(cal), P.fset.Position(ins.Pos()), k.typ, k.field, P.fnKey(cal))
+							}
+						}
+					}
+				}
+			}
+		}
+		if checked == 0 {
+			return fail("no lock acquisition found (renamed?)")
+		}
+		return ok(fmt.Sprintf("%d lock acquisition(s), no call under a lock re-locks it", checked))
 	case "lock-balanced":
 		// lock-balanced: in every library function, a mutex locked on some path is unlocked again, or its unlock is
 		// deferred, on every path to a return (a return that leaves a non-reentrant mutex held wedges the next caller for
